@@ -83,6 +83,11 @@ def main(prop, deciding_counters, quick_cases=90, thorough_cases=2500, assumptio
                               "suite": "shipped", "twice": False, "lazy": True})
         # a vm restriction spelled like one alternative of a test's own OR-restriction (tutorial_gui: only_vm1 = qemu_kvm_centos,
         # qemu_kvm_fedora): it must narrow the lazily expanded tests exactly as it narrows the up-front graph
+        # an exclusion list whose decisive variant is not the first one: lazy expansion must exclude exactly what the
+        # Cartesian parser (up-front parsing) excludes
+        for vm1 in ("no Ubuntu,Fedora\n", "no Fedora,Ubuntu\n"):
+            cases.append({"restriction": "normal..tutorial1", "vm_strs": {"vm1": vm1, "vm2": "only Win10\n", "vm3": "only Ubuntu\n"},
+                          "nets": "net1", "params": {"shared_pool": "/mnt/local/images/shared"}, "suite": "shipped", "twice": False, "lazy": True})
         for restriction in ("leaves..tutorial_gui", "leaves..tutorial_get.explicit_noop"):
             cases.append({"restriction": restriction, "vm_strs": {"vm1": "only qemu_kvm_centos\n", "vm2": "only Win10\n", "vm3": "only Ubuntu\n"},
                           "nets": "net1", "params": {"shared_pool": "/mnt/local/images/shared"}, "suite": "shipped", "twice": False, "lazy": True})
